@@ -730,15 +730,20 @@ class ExcelInPython:
         empty = [elem for elem in flatten_list if elem is None or elem == ""]
         return len(empty)
 
-    def _ifs(self, flatten_list: List):
-        err_value = self._find_error_in_list(flatten_list)
-        if err_value:
-            return err_value
+    def _ifs(self, conditions_and_values: List):
+        # The conditions and the values are functions (plain values are accepted as well): a condition is evaluated
+        # only when every condition before it is false, a value only when its condition is the first true one
+        def get(item):
+            return item() if callable(item) else item
 
         index = 0
-        while index < len(flatten_list):
-            if flatten_list[index]:
-                return flatten_list[index + 1]
+        while index + 1 < len(conditions_and_values):
+            condition = get(conditions_and_values[index])
+            err_value = self._find_error_in_list([condition])
+            if err_value:
+                return err_value
+            if condition:
+                return get(conditions_and_values[index + 1])
             index += 2
 
         return '#N/A'
